@@ -36,7 +36,7 @@ STUB_COMPONENTS = ["leaf processors (with a counting tick, nothing recorded per 
 ASSUMPTIONS = ["gc object increments are reproducible to within a few objects per 100 runs inside a forked child (a no-op control history calibrates the harness's own "
                "footprint to 0)", "proportional growth is what is forbidden; a constant offset is allowed"]
 REQUIRED_PROBES = ["mode.reuse", "mode.fresh", "mode.launch", "mode.queue", "mode.launches", "queue_job_profile_with_unimportable_module", "pipeline_with_sweep", "pipeline_with_shorthand",
-                   "failing_configuration_repeated", "traced_repeats"]
+                   "failing_configuration_repeated", "traced_repeats", "queue_fire_and_forget_jobs", "cli_transport_selected_in_config"]
 CONFIG = {
     "quick": {"runs": 64, "budget_s": 240, "timeout_s": 400},
     "thorough": {"runs": 1600, "budget_s": 1700, "timeout_s": 600},
@@ -63,7 +63,9 @@ def generate(rng: random.Random, tier: str, seed: int) -> dict:
     sc = {"base": {k: base[k] for k in ("nodes", "context", "init_data")}, "modes": modes, "n": 450,
           "sched_seed": rng.getrandbits(48), "failing": None, "traced": rng.random() < 0.5,
           "launches_run_space": rng.random() < 0.6,     # mode `launches`: each launch is a one-run run-space launch, directory trace output
-          "bad_profile_module": rng.random() < 0.35}   # queue mode: the job's registry profile names a module that cannot be imported
+          "bad_profile_module": rng.random() < 0.35,   # queue mode: the job's registry profile names a module that cannot be imported
+          "fire_forget": rng.random() < 0.5,           # queue mode: jobs enqueued without a Future (nobody awaits their result)
+          "cli_transport": rng.random() < 0.5}         # launch / launches: the configuration selects its transport explicitly
     if rng.random() < 0.3:
         # the repeated configuration FAILS at a node after the first one (every repetition raises / fails its Future)
         fs = [f for f in gen.applicable_failures(base) if f[0] in ("unresolvable", "type_gate", "undeclared_op", "undeclared_ctx") and f[1] >= 1]
@@ -244,6 +246,14 @@ def _run_mode(sc: dict, mode: str, w, stats: dict) -> list[dict]:
         if mode == "launch":
             # the CLI's Pipeline lives in cli._run's frame; its transport is found among the live objects
             r["cli_pipeline.transport"] = [o for o in gc.get_objects() if isinstance(o, InMemorySemantivaTransport)]
+        if mode == "launches":
+            # launches are over at a sample point: any transport alive now outlived the launch that used it
+            r["transport_surviving_a_launch"] = [o for o in gc.get_objects() if isinstance(o, InMemorySemantivaTransport)]
+        if "queue_transport" in r:
+            # queued messages (job descriptions / status reports nobody has consumed) are attributed apart from the channel
+            # table itself (known finding F10c is about the per-job CHANNELS only); listed first: first label wins
+            msgs = [m for (q, _lock) in list(r["queue_transport"]._queues.values()) for m in list(q)]
+            r = {"queue_transport.messages": msgs, **r}
         return r
 
     sampler = Sampler(_first_leaf(nodes), roots_fn=roots_fn)
@@ -253,7 +263,7 @@ def _run_mode(sc: dict, mode: str, w, stats: dict) -> list[dict]:
     try:
         failing = bool(sc.get("failing"))
 
-        sampler.by_harness = mode in ("reuse", "fresh", "launches")
+        sampler.by_harness = mode in ("reuse", "fresh", "launches") or (mode == "queue" and bool(sc.get("fire_forget")))
 
         def one(p):
             sampler.tick_run()
@@ -291,7 +301,7 @@ def _run_mode(sc: dict, mode: str, w, stats: dict) -> list[dict]:
         elif mode == "launch":
             svworld.WORLD = w   # cwd/sandbox only; leaves record nothing because w.quiet is set
             rs = {"max_runs": 1000, "blocks": [{"mode": "by_position", "context": {"rs_idx": [float(i) for i in range(total)]}}]}
-            harness.write_cli_config(base, "launch.yaml", run_space=rs, executor=False,
+            harness.write_cli_config(base, "launch.yaml", run_space=rs, executor=False, extra=_cli_extra(sc),
                                      trace=harness.trace_cfg("file", "hash", "c18_launch") if traced else None)
             argv = ["run", "launch.yaml", "-q"]
             for k, v in base["context"].items():
@@ -302,7 +312,7 @@ def _run_mode(sc: dict, mode: str, w, stats: dict) -> list[dict]:
         elif mode == "launches":
             svworld.WORLD = w
             one_rs = {"blocks": [{"mode": "by_position", "context": {"rs_one": [1.0]}}]} if sc.get("launches_run_space") else None
-            harness.write_cli_config(base, "one.yaml", executor=False, run_space=one_rs,
+            harness.write_cli_config(base, "one.yaml", executor=False, run_space=one_rs, extra=_cli_extra(sc),
                                      trace=harness.trace_cfg("dir" if sc.get("launches_run_space") else "file", "hash", "c18_launches") if traced else None)
             argv = ["run", "one.yaml", "-q"]
             for k, v in base["context"].items():
@@ -313,7 +323,7 @@ def _run_mode(sc: dict, mode: str, w, stats: dict) -> list[dict]:
                 if (r["code"] != 0) != failing:
                     raise RuntimeError(f"launch outcome unexpected: {r['code']} {r['stderr'][:300]}")
         elif mode == "queue":
-            _queue_mode(sc, total, roots, lg)
+            _queue_mode(sc, total, roots, lg, sampler)
         if len(sampler.samples) != 3:
             raise RuntimeError(f"mode {mode}: only {len(sampler.samples)} samples (count={sampler.count})")
     finally:
@@ -355,7 +365,11 @@ def _run_mode(sc: dict, mode: str, w, stats: dict) -> list[dict]:
     return out
 
 
-def _queue_mode(sc: dict, total: int, roots: dict, lg) -> None:
+def _cli_extra(sc: dict):
+    return {"execution": {"transport": "in_memory"}} if sc.get("cli_transport") else None
+
+
+def _queue_mode(sc: dict, total: int, roots: dict, lg, sampler=None) -> None:
     from semantiva.context_processors import ContextType
     from semantiva.execution.executor.executor import SequentialSemantivaExecutor
     from semantiva.execution.job_queue import queue_orchestrator as qo
@@ -379,6 +393,28 @@ def _queue_mode(sc: dict, total: int, roots: dict, lg) -> None:
             from semantiva.registry import RegistryProfile
             profile = RegistryProfile(modules=["svsim.lib", "svsim_optional_plugin_that_is_not_installed"])
 
+        def client_fire_forget():
+            # Nobody awaits a result. The client itself marks run starts (sample points are quiescent: job i has reported and
+            # the master has collected the report, or a bounded wait has expired).
+            for i in range(total):
+                sampler.tick_run()
+                orch.enqueue(copy.deepcopy(base["nodes"]), context=ContextType(copy.deepcopy(base["context"])), registry_profile=profile)
+                waited = 0
+                while sum(1 for ch in list(tr._queues) if ch.endswith(".status")) < i + 1:
+                    threads.sim_sleep(0.05)
+                    waited += 1
+                    if waited > 2000:
+                        state["failed"] = f"job {i} never reported"
+                        stop.set()
+                        return
+                # quiescence: the master has collected every report (bounded wait - pacing, not an oracle: if reports are never
+                # collected the history goes on and the residue is what the samples measure)
+                for _ in range(100):
+                    threads.sim_sleep(0.05)
+                    if orch.job_queue.empty() and not any(q for (q, _l) in list(tr._queues.values())):
+                        break
+            stop.set()
+
         def client():
             for i in range(total):
                 fut = orch.enqueue(copy.deepcopy(base["nodes"]), context=ContextType(copy.deepcopy(base["context"])), return_future=True,
@@ -400,7 +436,7 @@ def _queue_mode(sc: dict, total: int, roots: dict, lg) -> None:
 
         sched.spawn("master", orch.run_forever)
         sched.spawn("worker0", lambda: wk.worker_loop(0, tr, SequentialSemantivaExecutor(), stop, logger=lg, poll_interval=0.05))
-        sched.spawn("client", client)
+        sched.spawn("client", client_fire_forget if sc.get("fire_forget") and sampler is not None else client)
         outcome = sched.run(wall_timeout=300.0)
         if outcome != "completed" or state["failed"]:
             raise RuntimeError(f"queue mode: {outcome} {state['failed']}")
@@ -448,6 +484,10 @@ def execute(sc: dict, seed: int) -> dict:
             nontrivial.append(f"{bd}/{mode}")
         if sc.get("traced"):
             stats["probe.traced_repeats"] = 1
+        if sc.get("fire_forget") and "queue" in sc["modes"]:
+            stats["probe.queue_fire_and_forget_jobs"] = 1
+        if sc.get("cli_transport") and ("launch" in sc["modes"] or "launches" in sc["modes"]):
+            stats["probe.cli_transport_selected_in_config"] = 1
         if sc.get("bad_profile_module") and "queue" in sc["modes"]:
             stats["probe.queue_job_profile_with_unimportable_module"] = 1
             stats["fault.module_import_error"] = 1
